@@ -7,17 +7,24 @@ From FEC Require Import Models.PackingM Models.LayoutM Models.LayoutTables Proof
      Generated.LayoutCpp Generated.LayoutPyProbe Generated.LayoutExc.
 Import ListNotations.
 
-(* the comparison, as computed *)
+(* the comparison, as computed: for every way the library reads a payload — unpack(buffer, message_version=MESSAGE_VERSION),
+   unpack(buffer) with the default version, and FusionEngineDecoder.on_data() on the framed message — every struct's probe
+   row agrees with the C++ layout, and all ways name the same attributes byte for byte *)
+(* paths_agree T E cpp ref paths :=
+     forallb (fun pt => forallb2 (struct_agree T E) cpp (snd pt) && forallb2 same_fixed ref (snd pt)) paths      (Models/LayoutM.v) *)
 Theorem C02_layouts_agree :
-  forallb2 (struct_agree cpp_layouts layout_exceptions) cpp_layouts py_layouts = true.
+  paths_agree cpp_layouts layout_exceptions cpp_layouts py_layouts py_layout_paths = true.
 Proof. exact layouts_agree_b. Qed.
 Print Assumptions C02_layouts_agree.
 
-(* ... read as: for every struct and every member — same fixed-part size (smallest buffer Python unpacks, bytes
-   consumed, bytes packed = sizeof), every non-padding byte of the member read into one attribute which depends on no
-   byte outside the member and carries the expected name, padding not read, pack writes exactly these bytes. *)
-Theorem C02_layouts_agree_forall :
-  layouts_agree_spec cpp_layouts layout_exceptions cpp_layouts py_layouts.
+(* ... read as: on every call path, for every struct and every member — same fixed-part size (smallest buffer Python
+   unpacks, bytes consumed, bytes packed = sizeof), every non-padding byte of the member read into one attribute which depends
+   on no byte outside the member and carries the expected name, padding not read, pack writes exactly these bytes; and the
+   attribute <-> byte map is the same on every path. *)
+Theorem C02_layouts_agree_forall : forall path tbl, In (path, tbl) py_layout_paths ->
+  layouts_agree_spec cpp_layouts layout_exceptions cpp_layouts tbl /\
+  List.length py_layouts = List.length tbl /\
+  forall p q, In (p, q) (combine py_layouts tbl) -> same_fixed p q = true.
 Proof. exact layouts_agree_forall. Qed.
 Print Assumptions C02_layouts_agree_forall.
 
@@ -55,7 +62,7 @@ Definition ex_tail := repeat (ex_byte [] []) 8.
 Definition ex_ps (b0 b1 b2 b3 : pbyte) (sz : nat) := mkPstruct "S" "m.S" (Some sz) (Some sz) (Some sz) ["a"; "b"] ([b0; b1; b2; b3] ++ ex_tail).
 Definition ex_E := mkExc [] [] [] [].
 Example C02_nonvacuous :
-  cpp_layouts <> [] /\ py_layouts <> [] /\
+  cpp_layouts <> [] /\ py_layouts <> [] /\ List.length py_layout_paths = 3 /\ (exists path, In (path, py_layouts) py_layout_paths) /\
   forallb (fun s => forallb (fun m => Nat.ltb 0 (ct_size (m_type m))) (s_members s)) cpp_layouts = true /\
   struct_agree [ex_cs] ex_E ex_cs (ex_ps (ex_byte ["a"] [0]) (ex_byte ["b"] [1]) (ex_byte [] []) (ex_byte [] []) 4) = true /\
   struct_agree [ex_cs] ex_E ex_cs (ex_ps (ex_byte ["b"] [0]) (ex_byte ["a"] [1]) (ex_byte [] []) (ex_byte [] []) 4) = false /\
@@ -63,4 +70,5 @@ Example C02_nonvacuous :
   struct_agree [ex_cs] ex_E ex_cs (ex_ps (ex_byte ["a"] [0]) (ex_byte ["b"] [1]) (ex_byte ["b"] [2]) (ex_byte [] []) 4) = false /\
   struct_agree [ex_cs] ex_E ex_cs (ex_ps (ex_byte ["a"] [0]) (ex_byte ["b"] [1]) (ex_byte [] []) (ex_byte [] []) 5) = false /\
   struct_agree [ex_cs] ex_E ex_cs (ex_ps (ex_byte ["a"] [0]) (ex_byte [] []) (ex_byte [] []) (ex_byte [] []) 4) = false.
-Proof. split; [discriminate|]. split; [discriminate|]. split; [exact members_nonempty_b|]. vm_compute. repeat split. Qed.
+Proof. split; [discriminate|]. split; [discriminate|]. split; [exact three_paths|]. split; [exact reference_is_a_path|].
+  split; [exact members_nonempty_b|]. vm_compute. repeat split. Qed.
